@@ -9,7 +9,7 @@ EXPLANATION = (
     "panic/unwrap, unchecked access) in the call-graph closure of the parsing entry points, whether a guard "
     "dominates it on every CFG path (dataflow over SSA-like value expressions, linear facts from dominating "
     "branch edges, callee postcondition summaries proved from the callee bodies, inductive loop invariants). "
-    "Also: loop progress, recursion (a depth-counter comparison guards the cycle, and every call cycle of the recursive component contains an edge that passes caller-depth + c, c >= 1), and that the reported consumed length is bounded by the input length. "
+    "Also: loop progress, recursion (a depth-counter comparison guards the cycle, and every call cycle of the recursive component contains an edge that passes caller-depth + c, c >= 1; or, mirrored, a budget that every cycle lowers behind a budget >= 1 guard and every outside caller sets to a constant), and that the reported consumed length is bounded by the input length. "
     "It does NOT decide accessor totality on parsed values (index sites driven by stored offsets are UNDECIDED) "
     "nor UTF-8 validity of unescaped output.")
 EXPLANATION += ' Also decided: raw block copies (ptr::copy_nonoverlapping and friends) stay inside the slice their destination pointer was taken from; a length test that compares the same quantities as an open bound with a smaller constant is reported as a violation with the size of the window.'
